@@ -13,7 +13,12 @@ Import ListNotations.
 Local Open Scope Z_scope.
 
 Definition SDIGITS : Z := 30.
-Definition U : Z := 10 ^ SDIGITS.          (* the integer representing 1 *)
+(* the integer representing 1; stored as a literal so that evaluation does not recompute the power *)
+Definition U : Z := Eval vm_compute in 10 ^ SDIGITS.
+Lemma U_eq : U = 10 ^ 30.
+Proof. reflexivity. Qed.
+Lemma U_pos : 0 < U.
+Proof. reflexivity. Qed.
 
 (** * parser *)
 Record tok := mk_tok {
